@@ -151,6 +151,8 @@ def write (st : St) (addr : Nat) (block : List UInt8) (noFlash : Bool) : St × R
   else if block.length % st.cfg.al ≠ 0 then
     (st, .err (.alignment block.length (block.length % st.cfg.al)))
   else if block.length > st.cfg.ps then (st, .err (.overflow block.length st.cfg.ps))
+  -- "same bound as `write_all`: the final count must also be storable"
+  else if st.count = 4294967295 then (st, .err (.blockCount 1 0))
   else match checkWrite st 512 with
     | .err e => (st, .err e)
     | .panic s => (st, .panic s)
